@@ -27,7 +27,8 @@ EXTENDS Integers, Sequences, FiniteSets, Json, IOUtils, TLC
 ASSUME TLCSet(11, ndJsonDeserialize(IOEnv.VERIF_TRACE))
 Funcs == TLCGet(11)      \* each: [id, name, kind ("fn"|"chunk"), nargs, varargs, instrs]
 
-MaxHeight == 24
+MaxHeight == 40
+MaxScopes == 12
 
 VARIABLES fi,      \* which listing
           pc,      \* 0-based program counter
@@ -52,6 +53,7 @@ Bad(why) == /\ st' = "bad:" \o why /\ UNCHANGED <<fi, pc, cells, sd>>
 Go(npc, ncells, nsd) ==
     IF Len(ncells) > MaxHeight THEN Bad("height-grows")
     ELSE IF nsd < 0 THEN Bad("scope-underflow")
+    ELSE IF nsd > MaxScopes THEN Bad("scopes-grow")
     ELSE pc' = npc /\ cells' = ncells /\ sd' = nsd /\ UNCHANGED <<fi, st>>
 
 Drop(s, k) == SubSeq(s, 1, Len(s) - k)
